@@ -2089,21 +2089,50 @@ func init() {
 		Run: func(p *Prog, c *Ctx) {
 			fn := p.MustFn("(*vuego.Stack).Lookup")
 			n := 0
-			// the scan is a loop of Lookup, or the body closure of a range-over-func loop over the scope list
+			// the scan is a loop of Lookup, or the body closure of a range-over-func loop over the scope list —
+			// and any other method of the stack that walks the scopes by itself (a `fast path` in Resolve …)
 			scanFns := []*ssa.Function{fn}
 			isBody := map[*ssa.Function]bool{}
 			for _, rf := range rangeFuncs(fn) {
 				scanFns = append(scanFns, rf.Body)
 				isBody[rf.Body] = true
 			}
+			for _, other := range p.Funcs {
+				if other == fn || p.Dropped[other] || other.Parent() != nil || typeShort(recvType(other)) != "*vuego.Stack" {
+					continue
+				}
+				scansScopes := false
+				eachInstr(other, func(in ssa.Instruction) {
+					if lk, ok := in.(*ssa.Lookup); ok && loopHeaderOf(lk.Block()) != nil {
+						for _, o := range p.origins(lk.X, OriginOpts{}) {
+							if ld, ok := o.(*ssa.UnOp); ok {
+								if ia, ok := ld.X.(*ssa.IndexAddr); ok {
+									if f := loadedField(ia.X); f != nil && fieldIs(f, "stack") {
+										scansScopes = true
+									}
+								}
+							}
+						}
+					}
+				})
+				if scansScopes {
+					scanFns = append(scanFns, other)
+				}
+			}
 			for _, fn := range scanFns {
 				fn := fn
 				eachInstr(fn, func(in ssa.Instruction) {
 					lk, ok := in.(*ssa.Lookup)
-					if !ok || !lk.CommaOk || (loopHeaderOf(lk.Block()) == nil && !isBody[fn]) {
+					if !ok || (loopHeaderOf(lk.Block()) == nil && !isBody[fn]) {
+						return
+					}
+					if _, isMap := lk.X.Type().Underlying().(*types.Map); !isMap {
 						return
 					}
 					var val, present ssa.Value
+					if !lk.CommaOk {
+						val = lk
+					}
 					for _, u := range *lk.Referrers() {
 						if ex, ok := u.(*ssa.Extract); ok {
 							if ex.Index == 0 {
@@ -2133,6 +2162,12 @@ func init() {
 							if val != nil && (l == val || sameValue(l, val)) {
 								usesVal = true
 							}
+							// `inner, ok := v.(map[string]any)`: whether the assertion holds is a property of the value
+							if ex, ok := l.(*ssa.Extract); ok && val != nil {
+								if ta, ok := ex.Tuple.(*ssa.TypeAssert); ok && (ta.X == val || sameValue(ta.X, val)) {
+									usesVal = true
+								}
+							}
 							// through a local the value was stored into
 							for _, o := range p.origins(l, OriginOpts{}) {
 								if val != nil && o == val {
@@ -2141,7 +2176,7 @@ func init() {
 							}
 						}
 						n++
-						c.check(!usesVal, fmt.Sprintf("Lookup: branch at %s decided by presence only", p.instrPos(ifi)), p.instrPos(ifi), "does not test the value found", "whether the scan stops at this scope depends on the value bound there, not only on the name being bound: a name bound to nil (or another rejected value) in an inner scope no longer shadows outer bindings — Lookup, Resolve and Get* return the outer value while EnvMap reports the inner nil")
+						c.check(!usesVal, fmt.Sprintf("%s: branch at %s decided by presence only", strings.TrimPrefix(shortName(rootFunc(fn)), "(*vuego.Stack)."), p.instrPos(ifi)), p.instrPos(ifi), "does not test the value found", "whether the scan stops at this scope depends on the value bound there, not only on the name being bound: a name bound to nil (or another rejected value) in an inner scope no longer shadows outer bindings — Lookup, Resolve and Get* return the outer value while EnvMap reports the inner nil")
 					}
 				})
 			}
